@@ -265,3 +265,25 @@ Definition Cl (k : N) := Ev (EClose k).
 Definition Lc (s : N) := Ev (ELogClose s).
 Definition Ad (d : N) := Ev (EAdvance d).
 Definition Q := Quiet.
+
+(* ---- the slow-dial interleaving, on two recorded logs (timeout 2 s, first dial of session 7 lasts 3 s) ----
+   The sweep at 3000 ms selects the entry (idle since the datagram arrived at 0 ms) while its dial is in progress.
+   Recorded from udp.go as it is (connLock held across DialFunc): the sweeper's CloseWithErr takes effect after the
+   socket install and closes that socket - a run of the LTS. *)
+Definition slow_dial_log : list item :=
+  [Q;Q;Rc 7;Q;Ad 1000;Ad 1000;Ad 1000;Dk 7 0;Wk 0 7;Cl 0;Lc 7;Gf 0;Ad 1000;Q;Rc 7;Dk 7 1;Wk 1 7;Q;
+   Ad 1000;Ad 1000;Ad 1000;Cl 1;Lc 7;Gf 1;Ad 100;Re;Q;Ad 900;Ad 1000;Ad 600;Q].
+Example slow_dial_accepted : check (CHist 2000 0 true slow_dial_log) = true.
+Proof. vm_compute. reflexivity. Qed.
+
+(* Recorded from a tree whose initConn releases connLock during the dial and does not look at the closed flag again:
+   the session is reported closed inside the dial, then the dial installs socket 0 into the dead entry (never
+   closed, its reply loop keeps serving it).  ADial is atomic with the closed check, so this log has no run: the
+   acceptor is stuck at the dial record (index 8). *)
+Definition slow_dial_close_inside_log : list item :=
+  [Q;Q;Rc 7;Q;Ad 1000;Ad 1000;Ad 1000;Lc 7;Dk 7 0;Wk 0 7;Ad 1000;Q;Rc 7;Dk 7 1;Wk 1 7;Gk 0;Sk 0 7;Q;
+   Ad 1000;Ad 1000;Ad 1000;Cl 1;Lc 7;Gf 1;Ad 100;Re;Q;Ad 900;Ad 1000;Ad 600;Q].
+Example slow_dial_close_inside_rejected :
+  check (CHist 2000 0 true slow_dial_close_inside_log) = false /\
+  stuck_at 2000 false true 60 slow_dial_close_inside_log = Some 8.
+Proof. vm_compute. split; reflexivity. Qed.
